@@ -69,7 +69,8 @@ type LStream struct {
 	Frames        int64 // DATA frames received
 	Ended         bool  // END_STREAM received (DATA or HEADERS)
 	ImplReset     bool  // RST_STREAM received
-	ImplResetCode http2.ErrCode
+	ImplResetCode http2.ErrCode   // code of the first RST_STREAM
+	Resets        []http2.ErrCode // codes of all RST_STREAM frames received (first 16)
 	HasExpect     bool
 	Key           uint64
 	Total         int64
@@ -532,6 +533,9 @@ func (l *Ledger) applyEvent(idx int, e *Event) {
 		s := l.stream(e.StreamID)
 		if !s.ImplReset { // the first RST_STREAM is the implementation's verdict on the stream
 			s.ImplReset, s.ImplResetCode = true, e.ErrCode
+		}
+		if len(s.Resets) < 16 {
+			s.Resets = append(s.Resets[:len(s.Resets):len(s.Resets)], e.ErrCode)
 		}
 		delete(l.live, e.StreamID)
 	case http2.FrameSettings:
